@@ -482,6 +482,74 @@ func c13Scenarios(c *fw.Ctx) []*Scenario {
 		}
 		return []func(){command, writer}, judge
 	}}
+	// S9: the session of a command that CREATES its destination.  copy into a missing destination next to a library
+	// session that opens that path and writes one slot: either that session finds no (complete) file and fails, or it
+	// waits for the creator; an update it reports as stored is never lost.
+	var s9Refs [2][]byte // copy alone; copy, then the writer
+	cmdCreator := &Scenario{Name: "S9-copy-creating-vs-writer", Bound: 2, Make: func() ([]func(), func(*vrt.Sched) (string, string, string)) {
+		vrt.SetPagesize(4096)
+		ld := LayoutByTag("L4")
+		l4 := wsp.Layout{Archs: ld.Archs, Method: 2, XFF: 0}
+		now := int64(c13Now | 1)
+		root := filepath.Join(c.Dir, "c13s9")
+		spath, dpath := filepath.Join(root, "s", "a.wsp"), filepath.Join(root, "d", "a.wsp")
+		prepare := func() {
+			os.RemoveAll(root)
+			src := EmptyRings(l4)
+			src[0][uint32(now)%l4.Archs[0].N] = wsp.Slot{T: uint32(now), V: 1}
+			(&BFile{L: l4, Rings: src}).Write(spath)
+			os.MkdirAll(filepath.Dir(dpath), 0755)
+		}
+		var cmdErr string
+		writerStored := false
+		command := func() {
+			cmd := &wcmd.CopyCommand{SrcBase: filepath.Join(root, "s"), SrcRelPath: "a.wsp", DestBase: filepath.Join(root, "d"), AggregationMethod: wt.Sum, ArchiveInfoList: archList(l4.Archs), ArchiveID: -1, TextOut: ""}
+			if err, pn := RunCommand(now, cmd); err != nil || pn != "" {
+				hmu.Lock()
+				cmdErr = fmt.Sprint("copy: ", err, firstLine(pn))
+				hmu.Unlock()
+			}
+		}
+		writer := func() {
+			db, err := wt.Open(dpath)
+			if err != nil {
+				return // no file yet, or the creation window (see S5): this session stored nothing
+			}
+			defer db.Close()
+			if db.UpdatePointForArchive(0, wt.Timestamp(now-1), 5, wt.Timestamp(now)) == nil && db.Sync() == nil {
+				hmu.Lock()
+				writerStored = true
+				hmu.Unlock()
+			}
+		}
+		if s9Refs[0] == nil {
+			prepare()
+			command()
+			s9Refs[0], _ = os.ReadFile(dpath)
+			writer()
+			s9Refs[1], _ = os.ReadFile(dpath)
+			cmdErr, writerStored = "", false
+		}
+		prepare()
+		judge := func(s *vrt.Sched) (string, string, string) {
+			if s.Deadlock || len(s.Panics) > 0 || s.Diverged != "" {
+				return "", "", "aborted"
+			}
+			if cmdErr != "" {
+				return "C13/S9/session-failed", cmdErr, "error"
+			}
+			got, _ := os.ReadFile(dpath)
+			want, which := s9Refs[0], "copy-alone"
+			if writerStored {
+				want, which = s9Refs[1], "copy-then-writer"
+			}
+			if !bytes.Equal(got, want) {
+				return "C13/S9/update-lost-or-mixed", fmt.Sprintf("copy creating its destination next to a session that reported its update stored=%v: the file does not equal what %s leaves", writerStored, which), "differs"
+			}
+			return "", "", which
+		}
+		return []func(){command, writer}, judge
+	}}
 	b2, b3 := -1, 2 // two-thread scenarios: every interleaving; three threads: preemption bound
 	if c.Thorough() {
 		b2, b3 = -1, -1 // every interleaving, also for three threads
@@ -498,6 +566,7 @@ func c13Scenarios(c *fw.Ctx) []*Scenario {
 		creator,
 		cmdReader,
 		cmdWriter,
+		cmdCreator,
 	}
 }
 
@@ -545,6 +614,21 @@ func c13FailEval(c *fw.Ctx, k c13FailCase) (sig, desc string, failed bool) {
 		if err == nil {
 			db.Close()
 		}
+	case "big-header":
+		// a header that does not fit into one page: valid metadata, N archive entries (all zero: invalid), file long enough
+		b := make([]byte, 16+12*k.N+4096)
+		copy(b, good[:16])
+		binary.BigEndian.PutUint32(b[12:], uint32(k.N))
+		os.WriteFile(path, b, 0644)
+		if p, txt := fw.Guard(func() {
+			var db *wt.Whisper
+			db, err = wt.Open(path)
+			if err == nil {
+				db.Close()
+			}
+		}); p {
+			err = fmt.Errorf("Open panicked: %s", firstLine(txt))
+		}
 	case "create-readonly":
 		var db *wt.Whisper
 		db, err = wt.Create(path, archList(c13Layout().Archs), wt.Sum, 0, wt.WithOpenFileFlag(os.O_RDONLY|os.O_CREATE|os.O_EXCL))
@@ -577,6 +661,9 @@ func c13Fails(c *fw.Ctx) {
 		}
 	}
 	cases = append(cases, c13FailCase{Kind: "create-readonly"})
+	for _, n := range []int{340, 341, 342, 400, 1000, 5000} {
+		cases = append(cases, c13FailCase{Kind: "big-header", N: n})
+	}
 	for i, k := range cases {
 		if i%c.Of != c.Shard {
 			continue
